@@ -24,7 +24,7 @@ RULE = ("seeded random (brightness in {0,tiny,random,1}, purity in (0.5,1] incl.
         "lossy?, backend, threshold?, heralded?); non-trivial = at least one non-ideal parameter")
 MANDATORY = ["all_three_nonideal_3photons", "bunched_impure", "lossy_dim", "threshold", "slos", "permanent",
              "g2_checked", "hom_checked", "perfect_checked", "classical_checked", "herald_photons",
-             "source_retuned_by_tiny_amount"]
+             "source_retuned_by_tiny_amount", "dim_source_3photons"]
 DECIDING = ["mon.source_stats_postconditions", "mon.sampler_source_postconditions"]
 BUDGET = {"quick": 30, "thorough": 480}
 ASSUMPTIONS = ["reference = generative emission model (pair probability from g2 = 1 - purity, independent survival "
@@ -33,7 +33,7 @@ ASSUMPTIONS = ["reference = generative emission model (pair probability from g2 
 
 
 def pick_source(rng):
-    b = float(rng.choice([1.0, 1.0, 0.0, 1e-9, rng.random(), rng.random()]))
+    b = float(rng.choice([1.0, 1.0, 0.0, 1e-9, 0.004, 0.02, rng.random(), rng.random()]))
     p = float(rng.choice([1.0, 1.0, 0.5 + 1e-6, 0.999999, rng.uniform(0.5001, 1), rng.uniform(0.8, 1)]))
     i = float(rng.choice([1.0, 1.0, 0.0, rng.random(), rng.random()]))
     t = float(rng.choice([0, 0, 0, 1e-6, 1e-3, 0.05]))
@@ -123,6 +123,7 @@ def run(ctx):
         nonideal = (br < 1, pu < 1, ind < 1)
         bunched = max(full_occ, default=0) > 1
         if all(nonideal) and sum(full_occ) >= 3: ctx.bucket("all_three_nonideal_3photons")
+        if 0 < br <= 0.02 and sum(full_occ) >= 3 and (pu < 1 or ind < 1): ctx.bucket("dim_source_3photons")
         if bunched and pu < 1: ctx.bucket("bunched_impure")
         if n_loss and br < 1: ctx.bucket("lossy_dim")
         if thr: ctx.bucket("threshold")
